@@ -111,7 +111,8 @@ Definition init_sess (sch : schema) : sess :=
    3 Entity.set fails in a collection argument after index / collection updates; 4 collection assignment fails after cascaded
    removals; 5 auto-generated id clashes with a cached object, the inserted row stays; 6 a row is loaded over a reference that was
    written but never loaded; 7 unique-index conflict while loading a row; 8 the row of a created object is loaded.
-   Assertion sites (believed unreachable; a hit during the correspondence run is reported as a broken tie): 20 the database value
+   Assertion sites (believed unreachable in a clean state, checked only while no other dirty site was reached; a hit during the
+   correspondence run is reported as a broken tie): 20 the database value
    of a loaded attribute changed; 21 an unwritten attribute has a value but no database value; 22 a row appears in a fully loaded
    collection; 23 remove: an item survived reverse_remove; 24 assign: items differ after processing; 25 add: a linked item is
    missing from the collection; 26 a deleted object is a member of a collection;
@@ -257,6 +258,7 @@ Fixpoint parse_cols (sch : schema) (s : sess) (e a : nat) (cols : list val) : se
   | c :: t =>
     let '(s1, v) := match ref_info sch e a, c with
                     | Some (tgt, _), VInt z => let '(s1, o) := get_or_seed sch s tgt z in (s1, VRef o)
+                    | Some _, VRef _ => (s, VNone)          (* a row never holds an object identity *)
                     | _, _ => (s, c)
                     end in
     let '(s2, vs) := parse_cols sch s1 e (S a) t in (s2, v :: vs)
@@ -751,7 +753,11 @@ Definition ref_set_rev (sch : schema) (s : sess) (item : oid) (a : nat) (newv : 
 Definition ref_set_direct (sch : schema) (s : sess) (o : oid) (a : nat) (newv : val) : sess :=
   match ref_info sch (obj_ent s o) a with
   | None => s
-  | Some (_, r) =>
+  | Some (t, r) =>
+    (* the new target exists and belongs to the target entity: guaranteed by validation *)
+    if negb (match newv with
+             | VRef y => match get_obj s y with Some oby => Nat.eqb (o_ent oby) t | None => false end
+             | _ => true end) then s else
     let old := obj_val s o a in
     let s1 := mark_written s o a in
     if oval_eqb old (Some newv) then s1
@@ -784,9 +790,10 @@ Definition sd_add_item (s : sess) (o : oid) (a : nat) (item : oid) : sess :=
     | None => ob_put_set ob a (Some (mkSd [item] [] [] false None))
     end).
 Definition item_link (sch : schema) (s : sess) (o : oid) (a r : nat) (item : oid) : sess :=
-  match ref_info sch (obj_ent s item) r with
-  | Some (_, a') => if Nat.eqb a' a then sd_add_item (ref_set_rev sch s item r (VRef o)) o a item else s
-  | None => s                      (* the item's attribute r is not the reverse of o.a: excluded by validation *)
+  match ref_info sch (obj_ent s item) r, get_obj s o with
+  | Some (t', a'), Some obo =>
+    if Nat.eqb a' a && Nat.eqb t' (o_ent obo) then sd_add_item (ref_set_rev sch s item r (VRef o)) o a item else s
+  | _, _ => s                      (* the item's attribute r is not the reverse of o.a: excluded by validation *)
   end.
 
 (* Set.load(obj, items) for one-to-many, without flushing *)
@@ -847,7 +854,7 @@ Definition coll_add (sch : schema) (s : sess) (o : oid) (a : nat) (items : list 
         | Some (_, r_) =>
           let s2 := fold_left (fun acc i => item_link sch acc o a r_ i) items2 (note_order s1 items2) in
           let sd := get_sd s2 o a in
-          if negb (subset_nat items2 (sd_items sd)) then Err (mark_dirty s2 25) EAssertion
+          if Nat.eqb (s_dirty s2) O && negb (subset_nat items2 (sd_items sd)) then Err (mark_dirty s2 25) EAssertion
           else
           let s3 := put_sd s2 o a (bookkeeping_add sd items2 (opt_add (sd_count sd) (Z.of_nat (length items2)))) in
           Ok (set_modified (modcoll_add s3 o a) true) tt
@@ -914,7 +921,7 @@ Definition coll_assign_gen (del : sess -> oid -> out unit) (sch : schema) (s : s
             if any_del s2 to_add then Err (mark_dirty s2 26) EDeleted else
             let s3 := fold_left (fun acc i => item_link sch acc o a r_ i) to_add s2 in
             let sd := get_sd s3 o a in
-            if negb (seteq_nat (sd_items sd) items) then Err (mark_dirty s3 24) EAssertion
+            if Nat.eqb (s_dirty s3) O && negb (seteq_nat (sd_items sd) items) then Err (mark_dirty s3 24) EAssertion
             else
             let cnt := match sd_count sd with Some _ => Some (Z.of_nat (length items)) | None => None end in
             let sd1 := mkSd items (sd_added sd) (sd_removed sd) (sd_full sd) cnt in
@@ -953,7 +960,7 @@ Definition coll_remove_gen (del : sess -> oid -> out unit) (sch : schema) (s : s
         | Err s2 er => Err s2 er
         | Ok s2 _ =>
           let sd := get_sd s2 o a in
-          if existsb (fun i => mem_nat i (sd_items sd)) items1 then Err (mark_dirty s2 23) EAssertion
+          if Nat.eqb (s_dirty s2) O && existsb (fun i => mem_nat i (sd_items sd)) items1 then Err (mark_dirty s2 23) EAssertion
           else
           let s3 := put_sd s2 o a (bookkeeping_remove sd items1 (opt_add (sd_count sd) (- Z.of_nat (length items1)))) in
           Ok (set_modified (modcoll_add s3 o a) true) tt
@@ -1068,10 +1075,18 @@ Fixpoint first_bad_set (s : sess) (cs : list cval) (a : nat) : option nat :=
   | _ :: t => first_bad_set s t (S a)
   end.
 
-Definition new_obj_record (e : nat) (pk : option Z) (cs : list cval) (upto : nat) : obj :=
+(* norefs: reference values start as None; new_op links them one by one afterwards (update_reverse) *)
+Definition cval_init (norefs : bool) (c : cval) : option val :=
+  match c with
+  | CVal (VRef x) => if norefs then Some VNone else Some (VRef x)
+  | CVal v => Some v
+  | CSet _ => None
+  end.
+
+Definition new_obj_record (norefs : bool) (e : nat) (pk : option Z) (cs : list cval) (upto : nat) : obj :=
   let n := length cs in
   mkObj e pk SCreated
-        (map (fun p => if Nat.ltb (fst p) upto then cval_val (snd p) else None) (combine (seq O n) cs))
+        (map (fun p => if Nat.ltb (fst p) upto then cval_init norefs (snd p) else None) (combine (seq O n) cs))
         (repeat None n) (repeat false n)
         (map (fun p => match snd p with CSet _ => if Nat.leb (fst p) upto then Some (mkSd [] [] [] true (Some 0)) else None | CVal _ => None end)
              (combine (seq O n) cs))
@@ -1108,7 +1123,7 @@ Definition new_op (sch : schema) (s : sess) (e : nat) (pk : option Z) (kw : list
       | VOk cs =>
         let n := length cs in
         let ics := combine (seq O n) cs in
-        let ob0 := new_obj_record e pk cs n in
+        let ob0 := new_obj_record true e pk cs n in
         if key_conflicts sch s e ob0 (seq O n) then (s, RErr ECacheIndex)
         else if match pk with Some z => match idx_get s e O (VInt z) with Some _ => true | None => false end | None => false end
         then (s, RErr ECacheIndex)
@@ -1117,7 +1132,7 @@ Definition new_op (sch : schema) (s : sess) (e : nat) (pk : option Z) (kw : list
           | Some j =>
             (* OperationWithDeletedObjectError after _get_from_identity_map_ registered the object: it stays in the
                primary-key index, half initialised and never queued (known finding) *)
-            let '(s1, o) := push_obj s (new_obj_record e pk cs j) in
+            let '(s1, o) := push_obj s (new_obj_record false e pk cs j) in
             let s2 := match pk with Some z => idx_put s1 e O (VInt z) o | None => s1 end in
             (mark_dirty s2 1, RErr EDeleted)
           | None =>
@@ -1129,14 +1144,14 @@ Definition new_op (sch : schema) (s : sess) (e : nat) (pk : option Z) (kw : list
             (* references: update_reverse(obj, None, val); collections: Set.__set__(obj, items, undo_funcs) *)
             let s4 := fold_left (fun acc p =>
                         match snd p with
-                        | CVal (VRef t) => match ref_info sch e (fst p) with Some (_, r_) => rev_add acc t r_ o | None => acc end
+                        | CVal (VRef t) => ref_set_direct sch acc o (fst p) (VRef t)
                         | CVal _ => acc
                         | CSet [] => acc
                         | CSet items =>
                           match set_info sch e (fst p) with
                           | Some (_, r_) =>
                             let acc1 := fold_left (fun ac i => item_link sch ac o (fst p) r_ i) items (note_order acc items) in
-                            let acc1 := if seteq_nat (sd_items (get_sd acc1 o (fst p))) items then acc1 else mark_dirty acc1 24 in
+                            let acc1 := if negb (Nat.eqb (s_dirty acc1) O) || seteq_nat (sd_items (get_sd acc1 o (fst p))) items then acc1 else mark_dirty acc1 24 in
                             set_modified (modcoll_add (put_sd acc1 o (fst p) (mkSd items items [] true (Some (Z.of_nat (length items))))) o (fst p)) true
                           | None => acc
                           end
